@@ -99,6 +99,8 @@ def monitor(case, impl_line):
 def monitor_(case, impl_line):
     """None when the observed answer satisfies the property's clauses for this input, else which clause fails."""
     t = case.split()
+    if t[0] == "D":
+        return monitor_date(case, impl_line)
     if t[0] != "R":
         return None
     fl, st_in, meth, ar, rg, ifr, et, lm, ct, content = t[1:11]
@@ -179,10 +181,65 @@ def mk_case(rng_value, content, layout="m", flags="1100", status=200, meth=0, ar
     return "R %s %d %d %s %s %s %s %s %s %s %s" % (flags, status, meth, o(ar), o(rng_value), o(ifr), o(et), o(lm), o(ct), hx(content), layout)
 
 
+WD = ["Mon", "Tue", "Wed", "Thu", "Fri", "Sat", "Sun"]; WDL = ["Monday", "Tuesday", "Wednesday", "Thursday", "Friday", "Saturday", "Sunday"]
+MON = ["Jan", "Feb", "Mar", "Apr", "May", "Jun", "Jul", "Aug", "Sep", "Oct", "Nov", "Dec"]
+
+
+def date_spellings(t):
+    import datetime
+    d = datetime.datetime.fromtimestamp(t, datetime.timezone.utc)
+    return [("imf", "%s, %02d %s %04d %02d:%02d:%02d GMT" % (WD[d.weekday()], d.day, MON[d.month - 1], d.year, d.hour, d.minute, d.second)),
+            ("rfc850", "%s, %02d-%s-%02d %02d:%02d:%02d GMT" % (WDL[d.weekday()], d.day, MON[d.month - 1], d.year % 100, d.hour, d.minute, d.second)),
+            ("asctime", "%s %s %2d %02d:%02d:%02d %04d" % (WD[d.weekday()], MON[d.month - 1], d.day, d.hour, d.minute, d.second, d.year))]
+
+
+def date_cases(ctx):
+    """D <lmtime> <hex If-Modified-Since>: every spelling of instants around day/month/year/leap boundaries, lmtime = t-1, t, t+1; junk dates"""
+    rng = ctx.rng; out = []
+    ts = [0, 1, 86399, 86400, 951782400 - 1, 951782400, 951868800, 1000000000, 1078099200, 1709164800, 1709251199, 1709251200, 1735689599, 1735689600,
+          2147483647, 2147483648, 4102444800 - 1, 4102444800, 126230400, 3281904000 - 1]
+    ts += [rng.randrange(0, 5184000000) for _ in range(60 if ctx.tier == "quick" else 3000)]
+    for t in ts:
+        for kind, txt in date_spellings(t):
+            if kind == "rfc850" and not (126230400 <= t < 3281904000): continue       # two-digit year window of the pivot year 2023
+            for lm in (t - 1, t, t + 1):
+                out.append("D %d %s" % (lm, hx(txt.encode())))
+    for junk in [b"", b"yesterday", b"Sun, 09 Sep 2001 01:46:40 UTC", b"Sun, 09 Sep 2001 01:46:40 GMT ", b"Sun, 9 Sep 2001 01:46:40 GMT", b"Xxx, 09 Sep 2001 01:46:40 GMT",
+                 b"Sun, 09 Xxx 2001 01:46:40 GMT", b"Sun Sep  9 01:46:40 200", b"Sunday, 09-Sep-01 01:46:40", b"Sun, 09 Sep 2001 01-46-40 GMT", b"Sun, 99 Sep 2001 99:99:99 GMT",
+                 b"Sun, 00 Jan 1970 00:00:00 GMT", b"Wed, 31 Dec 1969 23:59:59 GMT", b"Sun Sep 09 01:46:40 2001", b"Sunday, 09-Sep-01 01:46:40 GMT junk"]:
+        for lm in (0, 1000000000, 1000000001):
+            out.append("D %d %s" % (lm, hx(junk)))
+    return out
+
+
+def monitor_date(case, impl_line):
+    """RFC 9110 13.1.3: 304 unless the selected representation's last modification date is later than the date given"""
+    import calendar, re as _re
+    t = case.split(); lm = int(t[1]); txt = unhx(t[2]).decode("latin-1")
+    m = (_re.fullmatch(r"(\w{3}), (\d\d) (\w{3}) (\d{4}) (\d\d):(\d\d):(\d\d) GMT", txt) or
+         _re.fullmatch(r"(\w{6,9}), (\d\d)-(\w{3})-(\d\d) (\d\d):(\d\d):(\d\d) GMT", txt) or None)
+    ma = _re.fullmatch(r"(\w{3}) (\w{3}) ([ \d]\d) (\d\d):(\d\d):(\d\d) (\d{4})", txt)
+    if m:
+        day, mon, yr, hh, mm, ss = int(m.group(2)), m.group(3), int(m.group(4)), int(m.group(5)), int(m.group(6)), int(m.group(7))
+        if yr < 100: yr += 2000 if yr + 2000 <= 2073 else 1900
+    elif ma:
+        mon, day, hh, mm, ss, yr = ma.group(2), int(ma.group(3)), int(ma.group(4)), int(ma.group(5)), int(ma.group(6)), int(ma.group(7))
+    else:
+        return None if impl_line == "1" else "an unparsable If-Modified-Since date %r was treated as 'not modified'" % txt
+    if mon not in MON or not (1 <= day <= 31 and hh < 24 and mm < 60 and ss < 61) or (m and m.group(1) not in WD + WDL) or (ma and ma.group(1) not in WD):
+        return None            # not a valid date: either answer is defensible
+    try: ims = calendar.timegm((yr, MON.index(mon) + 1, day, hh, mm, ss))
+    except Exception: return None
+    want = "1" if lm > ims else "0"
+    if impl_line != want:
+        return "If-Modified-Since %r (instant %d) against a modification time of %d: http_date_if_modified_since says %s, RFC 9110 says %s" % (txt, ims, lm, impl_line, want)
+    return None
+
+
 def gen_cases(ctx):
     rng = ctx.rng
     thorough = ctx.tier == "thorough"
-    cases = []
+    cases = date_cases(ctx)
     dist = dict(exhaustive_1_2_specs=0, three_specs=0, gap_boundary=0, many=0, junk=0, precond=0, parse_only=0)
     content_for = lambda L: bytes((i * 7 + 3) % 251 for i in range(L))
     # (1) exhaustive: all single specs and all pairs over boundary numbers for small lengths
@@ -323,6 +380,8 @@ def describe(case):
     t = case.split()
     if t[0] == "P":
         return "http_range_parse(%r, len=%s)" % (unhx(t[2]), t[1])
+    if t[0] == "D":
+        return "http_date_if_modified_since(%r, lmtime=%s)" % (unhx(t[2]), t[1])
     d = dict(flags=t[1], status=t[2], meth=t[3], accept_ranges=t[4], range=t[5], if_range=t[6], etag=t[7], last_mod=t[8], ctype=t[9])
     for k in ("accept_ranges", "range", "if_range", "etag", "last_mod", "ctype"):
         d[k] = None if d[k] == "~" else unhx(d[k]).decode("latin-1")
